@@ -10,7 +10,7 @@ PY = sys.version_info[:2]
 
 ALL_FEATURES = [
     "try", "loop", "if", "match", "leave", "probe", "call", "multiitem", "layouts", "targets",
-    "scripts", "gcm", "es", "passive", "swallow", "raise", "prebound", "asyncmgr", "syncmgr",
+    "scripts", "gcm", "es", "passive", "swallow", "raise", "prebound", "asyncmgr", "syncmgr", "sentinel",
 ]
 
 TARGETS_SUPPORTED = [
@@ -239,6 +239,13 @@ class Gen(object):
             self.prog.points[pid] = {"kind": "probe", "fname": fn.name}
             return
         self.prog.points[pid] = {"kind": "trap", "fname": fn.name}
+        if self.cfg.on.get("sentinel") and self.cfg.__dict__.get("use_sentinels") and t.choose(3) == 1:
+            # an object that lives only on the value stack while suspended (C06)
+            if fn.kind in ("coro", "agen"):
+                self.emit(fn, ind, "W.use(W.sent(%d), await trap(W, F, %d))" % (pid, pid))
+            else:
+                self.emit(fn, ind, "W.use(W.sent(%d), (yield W.y(F, %d)))" % (pid, pid))
+            return
         if fn.kind == "coro":
             self.emit(fn, ind, "await trap(W, F, %d)" % pid)
         elif fn.kind == "agen":
